@@ -83,6 +83,11 @@ class FunctionFrame(object):
     # ------------------------------------------------------------------ bindings
     def _bind(self, target, value, kind):
         if isinstance(target, (ast.Tuple, ast.List)):
+            if kind == "assign" and isinstance(value, (ast.Tuple, ast.List)) and len(value.elts) == len(target.elts) and not any(
+                    isinstance(x, ast.Starred) for x in list(value.elts) + list(target.elts)):
+                for t_, v_ in zip(target.elts, value.elts):      # a, b = x, y
+                    self._bind(t_, v_, "assign")
+                return
             for e in target.elts:
                 self._bind(e.value if isinstance(e, ast.Starred) else e, value, "iter" if kind == "assign" else kind)
             return
